@@ -435,6 +435,9 @@ def run(ctx):
                                   store_equal=mhash == image)
         else:
             nrep += len(parsed)
+    for pm in backpressure_scenario(400)[:2]:
+        nbad += 1
+        ctx.violation(dict(scenario='one session, requests with ~30 kB replies all written before any reply is read'), 'pipelined session under back-pressure: ' + pm)
     for pm in routed_scenario()[:2]:
         nbad += 1
         ctx.violation(dict(scenario='front simulator with [UCMM] Route 1/1 -> delaying proxy -> back simulator', problem=pm),
@@ -472,6 +475,72 @@ def replay(ctx, rep):
 
 
 # ---------------------------------------------------------------- routed requests over real sockets
+def backpressure_scenario(nreq=160):
+    """"... even when many requests are written before any reply is read": one session writes `nreq` requests whose replies are ~30 kB each
+    (several MB of replies, far more than the socket buffers hold) before it reads anything; then every reply must be there, whole, in order.
+    -> list of problems"""
+    import socket, subprocess, sys, threading, time
+    s = socket.socket(); s.bind(('127.0.0.1', 0)); port = s.getsockname()[1]; s.close()
+    proc = subprocess.Popen([sys.executable, '-m', 'cpppo.server.enip', '--no-udp', '-a', '127.0.0.1:%d' % port, 'BIG@0x99/1/1=DINT[7500]', 'T=DINT[4]'],
+                            stdout=subprocess.DEVNULL, stderr=subprocess.DEVNULL, cwd='/')
+    problems = []
+    try:
+        for _ in range(150):
+            try:
+                c = socket.create_connection(('127.0.0.1', port), timeout=0.5); c.close(); break
+            except OSError:
+                time.sleep(0.1)
+        else:
+            raise core.HarnessError('simulator for the back-pressure scenario did not start')
+        c = socket.create_connection(('127.0.0.1', port), timeout=5)
+        c.sendall(hdr(0x65, struct.pack('<HH', 1, 0), 0, b'bp-reg00'))
+        reg = b''
+        while len(reg) < 28:
+            reg += c.recv(28 - len(reg))
+        handle = struct.unpack('<I', reg[4:8])[0]
+        reqs = []
+        for k in range(nreq):
+            r = ('get', ('num', 0x99, 1, 1, None)) if k % 4 else ('read', ('sym', 'T', None), 4)
+            reqs.append(E.build_unconnected(L.py_req(r), ctx=struct.pack('<Q', 0x1000 + k), session=handle))
+        werr = []
+
+        def writer():
+            try:
+                c.sendall(b''.join(reqs))
+            except OSError as e:
+                werr.append(str(e))
+        t = threading.Thread(target=writer, daemon=True); t.start()
+        time.sleep(5.0)                                    # nothing is read while the replies pile up
+        c.settimeout(20)
+        buf, got = b'', 0
+        try:
+            while got < nreq:
+                while len(buf) < 24 or len(buf) < 24 + struct.unpack('<H', buf[2:4])[0]:
+                    d = c.recv(1 << 16)
+                    if not d:
+                        raise EOFError()
+                    buf += d
+                ln = struct.unpack('<H', buf[2:4])[0]
+                f, buf = buf[:24 + ln], buf[24 + ln:]
+                cmd, _, sess, status, cx, _ = struct.unpack('<HHII8sI', f[:24])
+                want = 30000 + 4 + 16 if got % 4 else 16 + 4 + 2 + 16
+                if cmd != 0x6F or status != 0 or sess != handle or cx != struct.pack('<Q', 0x1000 + got) or ln != want:
+                    problems.append('reply #%d of %d written before any was read: command 0x%04x status %d context %s length %d (expected SendRRData, 0, request #%d\'s, %d)'
+                                    % (got, nreq, cmd, status, cx.hex(), ln, got, want)); break
+                got += 1
+        except (EOFError, OSError) as e:
+            problems.append('%d of %d replies arrived for requests written before any reply was read, then %s' % (got, nreq, type(e).__name__))
+        t.join(5)
+        c.close()
+    finally:
+        proc.terminate()
+        try:
+            proc.wait(5)
+        except Exception:
+            proc.kill()
+    return problems
+
+
 def routed_scenario():
     """client -> front simulator ([UCMM] Route 1/1 -> proxy) -> delaying proxy -> back simulator.  A forwarded request that times
     out must be answered by one frame with a non-zero status, and later forwarded requests must get THEIR OWN replies.
